@@ -127,6 +127,49 @@ fn list_ops(kind: usize) -> Vec<Op> {
         let first = l.first().cloned();
         out.push(show_list(&l.iter().filter(|y| Some((*y).clone()) != first).cloned().collect::<Vec<_>>()));
     })));
+    // a list derived from `l` (filter that keeps everything / drops the needle, identity map) is a list of its own: one of
+    // the two is changed in place, then both are observed (the change to `l` itself carries over to the later operations)
+    for (dname, dsrc, drops) in [("filter-all", "filter(l, pu x -> true end)".to_string(), false), ("filter-some", format!("filter(l, pu x -> x != {} end)", needle.src()), true), ("map-id", "map(l, pu x -> x end)".to_string(), false)] {
+        for target_source in [false, true] {
+            for mutation in 0..3usize {
+                let v = dom[0].clone();
+                let t = if target_source { "l" } else { "m" };
+                let msrc = match mutation {
+                    0 => format!("list.push({}, {})", t, v.src()),
+                    1 => format!("list.pop({})", t),
+                    _ => format!("list.set({}, 0, {})", t, v.src()),
+                };
+                let nd = needle.clone();
+                ops.push(mk(format!("do\n        m :: {}\n        {}\n        print(m)\n        print(l)\n        print(list.len(m))\n    end", dsrc, msrc), match (dname, target_source) {
+                    ("filter-all", false) => "derived(filter-all)-changed",
+                    ("filter-all", true) => "source-of(filter-all)-changed",
+                    ("filter-some", false) => "derived(filter-some)-changed",
+                    ("filter-some", true) => "source-of(filter-some)-changed",
+                    (_, false) => "derived(map-id)-changed",
+                    _ => "source-of(map-id)-changed",
+                }, std::sync::Arc::new(move |l, out| {
+                    let mut m: Vec<Val> = l.iter().filter(|x| !drops || **x != nd).cloned().collect();
+                    {
+                        let tgt: &mut Vec<Val> = if target_source { &mut *l } else { &mut m };
+                        match mutation {
+                            0 => tgt.push(v.clone()),
+                            1 => {
+                                tgt.pop();
+                            }
+                            _ => {
+                                if !tgt.is_empty() {
+                                    tgt[0] = v.clone();
+                                }
+                            }
+                        }
+                    }
+                    out.push(show_list(&m));
+                    out.push(show_list(l));
+                    out.push(format!("{}", m.len()));
+                })));
+            }
+        }
+    }
     if kind == 0 || kind == 4 {
         ops.push(mk("do\n        ll :: l\n        print(map(ll, pu x -> fold(map(ll, pu y -> y * x end), 0, pu y, acc -> acc + y end) end))\n    end".into(), "map(fold(map))", std::sync::Arc::new(|l, out| {
             let ints: Vec<i64> = l.iter().map(|x| if let Val::I(i) = x { *i } else { 0 }).collect();
@@ -257,7 +300,20 @@ struct History {
 
 fn list_histories(max_len: usize, out: &mut Vec<History>) {
     for kind in 0..KINDS {
-        let ops = list_ops(kind);
+        let mut ops = list_ops(kind);
+        if max_len <= 3 {
+            // quick tier: six of the eighteen derived-list operations (each deriving function, both targets, each kind of change)
+            let keep = |o: &Op| match o.name {
+                "derived(filter-all)-changed" => o.src.contains("list.push(m") || o.src.contains("list.set(m"),
+                "source-of(filter-all)-changed" => o.src.contains("list.pop(l"),
+                "derived(filter-some)-changed" => o.src.contains("list.push(m"),
+                "derived(map-id)-changed" => o.src.contains("list.set(m"),
+                "source-of(map-id)-changed" => o.src.contains("list.push(l"),
+                "source-of(filter-some)-changed" => false,
+                _ => true,
+            };
+            ops.retain(keep);
+        }
         let dom = elem_domain(kind);
         let ty = dom[0].ty();
         for init in 0..2 {
